@@ -32,6 +32,10 @@ FAMILIES = GRIDS + NETS + ("vor", "cs", "xcs")
 
 FACE_COLORS = ["red", "green", "blue", "#ff8800", "purple"]
 EDGE_COLORS = ["white", "gray", "yellow"]
+# colours given as RGB / RGBA tuples (components in percent): numpy cannot put them into one array with
+# colour names, with tuples of another length or with None (V14)
+FACE_TUPLES = ["rgb_0_100_0", "rgb_0_100_100", "rgba_100_0_100_100"]
+EDGE_TUPLES = ["rgb_0_0_0", "rgba_50_0_0_100"]
 MARKERS = ["o", "s", "^", "v", "D"]
 SIZES = [5, 10, 20, 40]
 ZORDERS = [0, 1, 2, 3]
@@ -86,19 +90,39 @@ def L():
 # tokens <-> python values
 
 
+def color_py(tok):
+    if tok.startswith(("rgb_", "rgba_")):
+        return tuple(int(c) / 100 for c in tok.split("_")[1:])
+    return tok
+
+
+def color_tok(v):
+    import numpy as np
+
+    if isinstance(v, (tuple, list, np.ndarray)):
+        return ("rgb_" if len(v) == 3 else "rgba_") + "_".join(str(int(round(float(c) * 100))) for c in v)
+    return str(v)
+
+
 def to_py(key, tok):
     if key in ("size", "zorder", "linewidths"):
         return int(tok)
     if key == "alpha":
         return int(tok) / 100
+    if key in ("color", "edgecolors"):
+        return color_py(tok)
     return tok
 
 
 def to_tok(key, v):
     import numpy as np
 
-    if isinstance(v, np.generic):
+    if isinstance(v, np.generic) or (isinstance(v, np.ndarray) and v.ndim == 0):
         v = v.item()
+    if key in ("color", "edgecolors") or isinstance(v, (tuple, list, np.ndarray)):
+        return color_tok(v)
+    if isinstance(v, float) and not math.isfinite(v):
+        return str(v)  # inf / nan: never a value the model produces
     if key == "alpha":
         return str(int(round(v * 100)))
     if isinstance(v, float) and v == int(v):
@@ -277,7 +301,7 @@ class SpaceImpl:
         kw = {}
         if defaults:
             c, s, mk, z = defaults
-            kw = {"color": c, "size": int(s), "marker": mk, "zorder": int(z)}
+            kw = {"color": color_py(c), "size": int(s), "marker": mk, "zorder": int(z)}
         with warnings.catch_warnings(record=True) as wl:
             warnings.simplefilter("always")
             try:
@@ -288,7 +312,7 @@ class SpaceImpl:
         n = len(data["loc"])
         entries = []
         for i in range(n):
-            entries.append((self.fmt_loc(data["loc"][i]), to_tok("size", data["s"][i]), str(data["c"][i]),
+            entries.append((self.fmt_loc(data["loc"][i]), to_tok("size", data["s"][i]), color_tok(data["c"][i]),
                             str(data["marker"][i]), to_tok("zorder", data["zorder"][i])))
         # one slot per agent (None: the agent's portrayal does not specify the key), or empty (fix V7)
         opt = {k: ["None" if v is None else to_tok(k, v) for v in data[k]] for k in ("alpha", "edgecolors", "linewidths")}
@@ -315,7 +339,8 @@ class SpaceImpl:
             return (180 / max(max(xs) - min(xs), max(ys) - min(ys))) ** 2
         pos = self.net_layout()
         x, y = list(zip(*pos.values()))
-        return (180 / max(max(x) - min(x), max(y) - min(y))) ** 2
+        # fix V12: a layout without extent (one node) is sized like a single cell
+        return (180 / (max(max(x) - min(x), max(y) - min(y)) or 1)) ** 2
 
     def net_layout(self):
         if self.layout is None:
@@ -339,8 +364,8 @@ class SpaceImpl:
         """groups [(marker, zorder, [marker tuples])] read back from the PathCollections on the Axes"""
         m = L()
         np = m["np"]
-        face = {tuple(m["to_rgba"](c)[:3]): c for c in FACE_COLORS + ["tab:blue"]}
-        edge = {tuple(m["to_rgba"](c)[:3]): c for c in EDGE_COLORS}
+        face = {tuple(m["to_rgba"](color_py(c))[:3]): c for c in FACE_COLORS + FACE_TUPLES + ["tab:blue"]}
+        edge = {tuple(m["to_rgba"](color_py(c))[:3]): c for c in EDGE_COLORS + EDGE_TUPLES}
         sd = self.s_default()
         groups = []
         for coll in ax.collections:
@@ -470,11 +495,16 @@ class SpaceImpl:
             if mode.startswith("cmap"):
                 best = min(cands, key=lambda v: float(np.abs(np.asarray(cmap(norm(v))) - rgba).sum()))
                 return best if float(np.abs(np.asarray(cmap(norm(best))) - rgba).sum()) < 1e-6 else "?"
-            v = rgba[3] * (vmax - vmin) + vmin
+            a = float(rgba[3])
+            if not (0.0 <= a <= 1.0):  # NaN (masked) or out of range: no value is shown
+                return "?"
+            if vmax == vmin:  # a range without extent is drawn at level 0 (V13)
+                return vmin if a == 0.0 else "?"
+            v = a * (vmax - vmin) + vmin
             return int(round(v)) if abs(v - round(v)) < 1e-6 else "?"
 
         if ax.images:
-            arr = np.ma.filled(ax.images[-1].get_array(), -1)
+            arr = np.ma.filled(ax.images[-1].get_array().astype(float), np.nan)
             if arr.ndim == 2:
                 img = [[int(v) for v in row] for row in arr]
             else:
@@ -683,7 +713,7 @@ def run_impl(sc):
 def gen_dict(R, policy):
     kv = []
     if R.random() < 0.6:
-        kv.append(("color", R.choice(FACE_COLORS)))
+        kv.append(("color", R.choice(FACE_TUPLES if R.random() < policy.get("tuples", 0) else FACE_COLORS)))
     if R.random() < 0.5:
         kv.append(("size", R.choice(SIZES)))
     if R.random() < 0.45:
@@ -693,6 +723,8 @@ def gen_dict(R, policy):
     for key, vals in (("alpha", ALPHAS), ("edgecolors", EDGE_COLORS), ("linewidths", LINEWIDTHS)):
         pol = policy[key]
         if pol == "all" or (pol == "some" and R.random() < 0.5):
+            if key == "edgecolors" and R.random() < policy.get("tuples", 0):
+                vals = EDGE_TUPLES
             kv.append((key, R.choice(vals)))
     if R.random() < 0.12:
         kv.append((R.choice(["id", "label", "x", "y"]), R.choice(["7", "q"])))
@@ -705,7 +737,7 @@ def gen_space(R, tier):
     w, h = R.choice([1, 2, 2, 3, 3, 4, 5]), R.choice([1, 2, 3, 3, 4, 5])
     extra, cells = [], None
     if fam in NETS:
-        n = R.randint(2, 6)
+        n = R.choice([1, 2, 2, 3, 3, 4, 5, 6])  # one node: a layout without extent (V12)
         labels = list(range(n)) if R.random() < 0.4 else R.sample(range(0, 9), n)
         if R.random() < 0.5:
             R.shuffle(labels)
@@ -723,6 +755,8 @@ def gen_space(R, tier):
     for key in ("alpha", "edgecolors", "linewidths"):
         policy[key] = R.choices(["none", "all", "some"], [0.64, 0.18, 0.18])[0]
     must_dict = any(p == "all" for p in policy.values())
+    # share of colours given as RGB(A) tuples: none, all, or mixed with names
+    policy["tuples"] = R.choices([0, 1, 0.5], [0.6, 0.1, 0.3])[0]
     ndict = R.randint(1 if must_dict else 0, 4)
     for r in range(ndict):
         lines.append(f"dict {r} " + gen_dict(R, policy))
@@ -744,7 +778,8 @@ def gen_space(R, tier):
         if k < 0.28:
             return "collect"
         if k < 0.36:
-            return f"collectd {R.choice(FACE_COLORS)} {R.choice(SIZES)} {R.choice(MARKERS)} {R.choice(ZORDERS)}"
+            return (f"collectd {R.choice(FACE_COLORS + FACE_TUPLES[:1])} {R.choice(SIZES)} {R.choice(MARKERS)} "
+                    f"{R.choice(ZORDERS)}")
         if k < 0.72:
             return "draw"
         if k < 0.74:
@@ -783,8 +818,8 @@ def gen_space(R, tier):
     if fam in GRIDS and R.random() < 0.5:
         mode = R.choice(["cmap", "color", "cmapauto", "colorauto"])
         vals = [R.randrange(10) for _ in range(w * h)]
-        if mode.endswith("auto") and len(set(vals)) < 2:
-            mode = mode[:-4]
+        if R.random() < 0.12:
+            vals = [vals[0]] * (w * h)  # a constant layer: under an automatic range vmin == vmax (V13)
         lines.append("layer " + " ".join(map(str, vals)))
         lines.append(f"drawlayer {mode}")
         if R.random() < 0.5:
@@ -968,7 +1003,7 @@ def expected_marker(fam, loc, d, size_default):
     x, y = loc
     if fam in HEXES:
         x, y = 2 * x + ((y - 1) % 2), 3 * y
-    return (f"{x},{y}", to_tok("size", d["size"]) if "size" in d else size_default, str(d.get("color", "tab:blue")),
+    return (f"{x},{y}", to_tok("size", d["size"]) if "size" in d else size_default, color_tok(d.get("color", "tab:blue")),
             str(d.get("marker", "o")), int(d.get("zorder", 1)))
 
 
@@ -994,7 +1029,7 @@ def oracle(sc, obs):
                 bad.append(f"collect-raised: collect_agent_data raised {opt} with {len(snap)} agents in the space")
                 continue
             c, s, mk, z = defaults or ("tab:blue", "25", "o", "1")
-            want = sorted((f"{loc[0]},{loc[1]}", to_tok("size", d["size"]) if "size" in d else s, str(d.get("color", c)),
+            want = sorted((f"{loc[0]},{loc[1]}", to_tok("size", d["size"]) if "size" in d else s, color_tok(d.get("color", color_py(c))),
                            str(d.get("marker", mk)), str(d.get("zorder", z))) for _, loc, d in snap)
             if sorted(entries) != want:
                 bad.append(f"collect-one-entry-per-agent: entries {sorted(entries)} but the agents in the space demand {want}")
@@ -1008,7 +1043,7 @@ def oracle(sc, obs):
                 if len(opt[key]) != len(entries):
                     bad.append(f"collect-optional-length: {key} {opt[key]} has not one slot for each of the {len(entries)} agents")
                     continue
-                wk = sorted((f"{loc[0]},{loc[1]}", to_tok("size", d["size"]) if "size" in d else s, str(d.get("color", c)),
+                wk = sorted((f"{loc[0]},{loc[1]}", to_tok("size", d["size"]) if "size" in d else s, color_tok(d.get("color", color_py(c))),
                              str(d.get("marker", mk)), str(d.get("zorder", z)),
                              to_tok(key, d[key]) if key in d else "None") for _, loc, d in snap)
                 if sorted(e + (v,) for e, v in zip(entries, opt[key])) != wk:
